@@ -19,6 +19,11 @@ func Gen(r *sx.Rng, idx int, focus string) sx.Tree {
 			if idx == 0 {
 				rate = 50
 			}
+			if idx == 1 {
+				// a second partition whose short request completes after the initial burst is used up
+				n := 350 + r.Range(0, 60)
+				return sx.T(sx.L(1), sx.L(200), sx.L(n), sx.L(2), sx.L(0), sx.L(0), sx.L(105+r.Range(0, 20)))
+			}
 			n := 100 + rate*3/10 + r.Range(1, 10)
 			nmain := int64(0)
 			if rate <= 100 {
